@@ -135,12 +135,14 @@ fn layout_shape_ok(src: &Src, ty: &str) -> Result<(), String> {
     let f = find_method(src, ty, "output_layout_with_checker").ok_or("output_layout_with_checker missing")?;
     let t = sm::tsx(&f.block);
     let (q1, q2, it) = if ty == "UnicodeEscape" { ("'\\''", "'\"'", "forchinsource.chars()") } else { ("b'\\''", "b'\"'", "forchinsource.iter()") };
-    let call = if ty == "UnicodeEscape" { "c=>UnicodeEscape::escaped_char_len(c)," } else { "c=>AsciiEscape::escaped_char_len(*c)," };
-    let want_match = format!("letincr=matchch{{{}=>{{single_count+=1;1}},{}=>{{double_count+=1;1}},{}}};", q1, q2, call);
+    let call = if ty == "UnicodeEscape" { "_=>UnicodeEscape::escaped_char_len(ch)," } else { "_=>AsciiEscape::escaped_char_len(*ch)," };
+    // (normal form: disjoint arms sorted, the catch-all arm reads the scrutinee)
+    let want_match = format!("letincr=matchch{{{}=>{{double_count+=1;1}},{}=>{{single_count+=1;1}},{}}};", q2, q1, call);
+    let want_match_b = format!("letincr=matchch{{{}=>{{single_count+=1;1}},{}=>{{double_count+=1;1}},{}}};", q1, q2, call);
     if !t.contains(it) {
         return Err("the layout does not iterate over every source character".into());
     }
-    if !t.contains(&want_match) {
+    if !t.contains(&want_match) && !t.contains(&want_match_b) {
         return Err("the per-character increment is not `quote => count += 1; 1 | c => escaped_char_len(c)`".into());
     }
     if !t.contains("let(quote,num_escaped_quotes)=choose_quote(single_count,double_count,preferred_quote);") || !t.contains("matchlength_add(out_len,num_escaped_quotes){Some(out_len)=>EscapeLayout{len:Some(out_len-") {
